@@ -1,6 +1,7 @@
 """C01-C07, C15, C17: monitors over executions of the emitted artefacts (codecs, dissector, self-tests)."""
 import collections
 import copy
+import os
 import random
 import re
 
@@ -37,6 +38,9 @@ def wire_pool(ctx, prefixes=None, nrand=10, every=1, extra=()):
             continue
         pool.append(p)
     pool += list(extra)
+    only = os.environ.get('VERIF_ONLY_TAGS')    # dev-time aid: run a check over the named protocols only (never set by a registered command)
+    if only:
+        pool = [p for p in pool if p.tag in only.split(',')]
     return [p for p in pool if p.root is not None]
 
 
@@ -52,6 +56,7 @@ def triage_wire(ctx, prop, lang, item, cls, what, replay):
     if app:
         ctx.finding_excluded[app[0]['id']] += 1
         ctx.known_finding(app[0]['id'], app[0]['what'])
+        check.triage_log(app[0]['id'], prop, lang, item.tag, cls, what)
         return False
     rp = {'dsl': item.text, 'lang': lang, 'symptom': cls}
     rp.update(replay or {})
@@ -534,7 +539,7 @@ def c05(ctx):
                        'several keys -> one packet, match in a nested packet, two match fields; every key of every table is sent once; oracle: dynamic type of the decoded payload == table(key) in every language; '
                        'for >= 3 keys outside the table decode must report failure (error / None / exception) - a value, a skipped payload, a panic or a dead process is a violation. '
                        'distinct = (protocol, language, key)')
-    pool = wire_pool(ctx, prefixes=['Mm', 'Ml'], nrand=40)
+    pool = wire_pool(ctx, prefixes=['Mm', 'Ml', 'Mq'], nrand=40)
     pool = [p for p in pool if 'root-match' in features(p) or 'sub-match' in features(p)]
     items = make(ctx, pool, LANGS5)
     for lang in LANGS5:
